@@ -633,7 +633,7 @@ func c11KeyStrings(key []string) []string {
 	// ShardKeyIndex.GetSplitPoints returns) plus strings between / around them
 	name := influx.GetNameWithVersion(c11Mst, 0)
 	set := map[string]bool{}
-	for _, tc := range c11TagCombos {
+	for _, tc := range c11TagCombos[:7] { // split points come from the base point set in both tiers
 		s := name
 		ok := true
 		if len(key) == 0 {
